@@ -21,10 +21,11 @@ from jax2onnx.converter.typing_support import LoweringContextProtocol
 from jax2onnx.plugins.jax._autodiff_utils import register_jvp_rule
 from jax2onnx.plugins.plugin_system import PrimitiveLeafPlugin, register_primitive
 from jax2onnx.plugins.jax.nn._builder_utils import (
+    lower_scaled_exp_linear_in_double,
     lower_unary_elementwise,
+    needs_double_parameters,
     register_unary_elementwise_batch_rule,
 )
-
 
 _ELU_PRIM: Final[Primitive] = Primitive("jax.nn.elu")
 _ELU_PRIM.multiple_results = False
@@ -103,6 +104,16 @@ class EluPlugin(PrimitiveLeafPlugin):
 
     def lower(self, ctx: LoweringContextProtocol, eqn: JaxprEqn) -> None:
         alpha = float(eqn.params.get("alpha", 1.0))
+        if needs_double_parameters(ctx, eqn, alpha):
+            lower_scaled_exp_linear_in_double(
+                ctx,
+                eqn,
+                kind="elu",
+                alpha=alpha,
+                input_hint="elu_in",
+                output_hint="elu_out",
+            )
+            return
 
         lower_unary_elementwise(
             ctx,
